@@ -57,6 +57,11 @@ impl<'a, 'b, 'c> AdtDeserializer<'a, 'b, 'c> {
                     if idx as u8 > metadata.version {
                         crate::verif::emit(crate::verif::Event::Probe("adt_unknown_chunk_skipped"));
                     }
+                    if *size < 0 {
+                        return Err(Error::DeserializationFailure(format!(
+                            "Invalid chunk size: {size}"
+                        )));
+                    }
                     let start = context.pos();
                     context.skip(*size as usize)?;
                     inputs.push(InputRegion::new(start, *size as usize));
